@@ -106,18 +106,37 @@ def audit_sources():
     return hits
 
 
-def theorem_index():
-    """theorems/<Model>.json -> list of dict(name, file, statement, serves, strength, note)"""
+def root_imports():
+    with open(os.path.join(LEAN, "FparserModel.lean")) as f:
+        return set(re.findall(r"^import\s+([\w.]+)", f.read(), re.M))
+
+
+def theorem_index(include_open=False):
+    """theorems/<Model>.json -> list of dict(name, file, statement, serves, strength, note).
+    Only theorems whose module is imported by the library root are obligations; entries
+    that are not Lean constants (open obligations written down by a slice) are kept apart."""
     out = []
     d = os.path.join(LEAN, "theorems")
     if not os.path.isdir(d):
         return out
+    roots = root_imports()
     for f in sorted(os.listdir(d)):
         if f.endswith(".json"):
             with open(os.path.join(d, f)) as fh:
                 for t in json.load(fh):
                     t["model"] = f[:-5]
-                    out.append(t)
+                    mod = t.get("file", "")
+                    mod = (mod[:-5] if mod.endswith(".lean") else mod).replace("/", ".")
+                    t["module"] = mod
+                    is_const = re.fullmatch(r"[\w.']+", t.get("name", "")) is not None
+                    is_open = (not is_const) or t.get("strength") == "open"
+                    if is_open:
+                        if include_open:
+                            t["open"] = True
+                            out.append(t)
+                        continue
+                    if mod in roots:
+                        out.append(t)
     return out
 
 
@@ -171,12 +190,11 @@ _NOAX_RE = re.compile(r"'([^']+)' does not depend on any axioms")
 def write_audit_file():
     """FparserModel/Audit.lean: `#print axioms` for every theorem named in theorems/*.json"""
     idx = theorem_index()
-    mods = sorted({t["file"] for t in idx})
-    lines = ["/-! generated by fv/common.py: axiom audit of every registered theorem -/"]
+    mods = sorted({t["module"] for t in idx})
+    lines = []
     for m in mods:
-        mod = m[:-5] if m.endswith(".lean") else m
-        mod = mod.replace("/", ".")
-        lines.append("import " + mod)
+        lines.append("import " + m)
+    lines.append("/-! generated by fv/common.py: axiom audit of every registered theorem -/")
     for t in idx:
         lines.append("#print axioms " + t["name"])
     content = "\n".join(lines) + "\n"
